@@ -31,20 +31,7 @@ package common
 
 // ───────────── transaction.go ─────────────
 
-//@ func (tx *SignedTransaction) TransactionType
-//@   property C05
-//@   requires tx != nil && InputsOK(&tx.Transaction) && OutputsOK(&tx.Transaction)
-//@   modifies nothing
-//@   ensures [mint] result == TransactionTypeMint ==> exists k int :: 0 <= k && k < len(tx.Inputs) && tx.Inputs[k].Mint != nil && (forall j int :: 0 <= j && j < k ==> PlainInput(tx.Inputs[j]))
-//@   ensures [deposit] result == TransactionTypeDeposit ==> exists k int :: 0 <= k && k < len(tx.Inputs) && tx.Inputs[k].Mint == nil && tx.Inputs[k].Deposit != nil && (forall j int :: 0 <= j && j < k ==> PlainInput(tx.Inputs[j]))
-//@   ensures [plain] result != TransactionTypeMint && result != TransactionTypeDeposit && result != TransactionTypeUnknown ==> PlainInputs(&tx.Transaction)
-//@   ensures [node] PlainInputs(&tx.Transaction) && len(tx.Outputs) >= 1 ==>
-//@       (tx.Outputs[0].Type == OutputTypeNodePledge ==> result == TransactionTypeNodePledge) &&
-//@       (tx.Outputs[0].Type == OutputTypeNodeAccept ==> result == TransactionTypeNodeAccept) &&
-//@       (tx.Outputs[0].Type == OutputTypeNodeRemove ==> result == TransactionTypeNodeRemove)
-//@   loop 0 invariant forall j int :: 0 <= j && j <= rangeindex ==> PlainInput(tx.Inputs[j])
-//@   loop 1 invariant PlainInputs(&tx.Transaction)
-//@   loop 1 invariant forall j int :: 0 <= j && j <= rangeindex ==> !NodeKind(tx.Outputs[j].Type)
+//@ -- (*SignedTransaction).TransactionType: contract merged into zz_contracts_c28_verif.go (properties C28, C05)
 
 //@ spec NodeKind(t mathint) bool = t == OutputTypeNodePledge || t == OutputTypeNodeAccept || t == OutputTypeNodeRemove
 //@ spec PlainInput(in *Input) bool = in.Mint == nil && in.Deposit == nil && isnil(in.Genesis)
